@@ -9,7 +9,7 @@ from . import c11
 ID = "C14"
 LEVEL = "exploration"
 BUILDS = ["rel"]
-BUDGET_S = {"quick": 150, "thorough": 2400}
+BUDGET_S = {"quick": 600, "thorough": 2400}
 V = scenario.VALIDATORS
 EXHAUSTIVE = {"quick": "all 2^7 subsets of validators for -d and for -e, on each generated tree",
               "thorough": "all 2^7 subsets of validators for -d and for -e, on each generated tree"}
